@@ -28,13 +28,22 @@ def run(ctx):
         mism, summ, _ = vlib.run_cases(ctx, drv, ["-workers", str(vlib.NCPU)], cf, label=label)
         for k in tot:
             tot[k] += summ[k]
+        if label == "exh" or not quick:
+            # the same cases with every value times 10^19: beyond the int64 range on both sides (TLC's 32-bit
+            # integers cannot carry such values; order statistics and sums scale, compared with 1e-9 relative tolerance)
+            mism2, summ2, _ = vlib.run_cases(ctx, drv, ["-workers", str(vlib.NCPU), "-scale", "19"], cf, label=label + "-e19")
+            for k in tot:
+                tot[k] += summ2[k]
+            for m in mism2:
+                m["scale"] = "values x 1e19"
+            mism = list(mism) + list(mism2)
         for m in mism:
             c = m.get("case") or {}
             a = (c.get("q") or {}).get("agg") or {}
             qs = a.get("qs") or []
             only_minmax = a.get("func") == "quantile" and all(tuple(x) in ((0, 1), (1, 1)) for x in qs)
-            sig = "agg:%s:%s:%s%s" % (a.get("func"), m.get("path"), (m.get("what") or "")[:24],
-                                       ":quantiles-only-min-max" if only_minmax else "")
+            sig = "agg:%s:%s:%s%s%s" % (a.get("func"), m.get("path"), (m.get("what") or "")[:24],
+                                         ":quantiles-only-min-max" if only_minmax else "", ":e19" if m.get("scale") else "")
             ctx.violation(sig, m, what="aggregation/histogram differs from AggCases reference: " + (m.get("what") or "")[:200])
         with open(cf) as fh:
             for i, ln in enumerate(fh):
@@ -47,7 +56,7 @@ def run(ctx):
     ctx.cov["rule"] = ("case = (document sequence, partition into <=3 fractions, query with one aggregation and a histogram interval). "
                        "exhaustive: every sequence of <=MaxDocs docs over XDocs x every assignment to parts x every XRaw shape; "
                        "simulation: <=5 docs over the value palette (negatives, decimals, exponent), 7 functions, dyadic quantile lists, "
-                       "intervals {0,2,3}. Each case: searcher fpi=1, fpi=all, manual reverse merge, proxy path. non-trivial = expected buckets non-empty")
+                       "intervals {0,2,3}; the exhaustive cases are replayed a second time with every value multiplied by 1e19 (outside the int64 range). Each case: searcher fpi=1, fpi=all, manual reverse merge, proxy path. non-trivial = expected buckets non-empty")
     ctx.assumptions += ["quantile palette is dyadic (0,1/4,1/2,3/4,1) so that the code's float index arithmetic is exact",
                         "per-group not-exists counters of time-binned (interval>0) field+group aggregations are not compared (the store does not bin them; the property does not define them)",
                         "legacy `_not_exists` bucket of count must equal NotExists and is otherwise ignored",
